@@ -277,10 +277,12 @@ func (a *accounting) structValue(sv reflect.Value, n *oracle.Node, exact bool) {
 				if m != nil && !isZeroRepr(m) {
 					a.add(gt, f.Name, "extra-member", "", "plain member written next to the language map")
 				}
+				seenTag := map[ap.LangRef]bool{}
 				for _, e := range entries {
-					if utf8.ValidString(string(e.Ref)) {
+					if utf8.ValidString(string(e.Ref)) && !seenTag[e.Ref] {
 						a.str(gt, f.Name+"["+"tag"+"]", string(e.Value), mm.Get(string(e.Ref)), exact)
 					}
+					seenTag[e.Ref] = true // a JSON object can hold one value per tag: later values under a repeated tag are not looked up
 				}
 				if len(mm.Members) != len(entries) {
 					a.add(gt, f.Name, "map-size", "", fmt.Sprintf("language map has %d members for %d entries", len(mm.Members), len(entries)))
@@ -455,7 +457,13 @@ func c02Check(writer string, x interface{}) (ds []keyed, out []byte) {
 	}
 	sort.Strings(dups)
 	for _, d := range dups {
-		ds = append(ds, keyed{fmt.Sprintf("json-out %s dup-member %s chars=%s", gt, d[strings.LastIndex(d, ".")+1:], worst), "an object repeats the member " + d + ": " + clipBytes(b, 400)})
+		// name the member with its parent, so that a repeated language tag (nameMap.en) and a repeated property (id) are different keys
+		parts := strings.Split(d, ".")
+		name := parts[len(parts)-1]
+		if len(parts) >= 2 && strings.HasSuffix(parts[len(parts)-2], "Map") {
+			name = parts[len(parts)-2] + "." + name
+		}
+		ds = append(ds, keyed{fmt.Sprintf("json-out %s dup-member %s chars=%s", gt, name, worst), "an object repeats the member " + d + ": " + clipBytes(b, 400)})
 	}
 	exact := worst != "nonutf8"
 	a := &accounting{}
@@ -630,6 +638,9 @@ func TestC02(t *testing.T) {
 		{"Name.map-niltag-last", func(h string) interface{} {
 			return &ap.Object{ID: id, Type: ap.NoteType, Name: ap.NaturalLanguageValues{{Ref: "en", Value: ap.Content(h)}, {Ref: ap.NilLangRef, Value: ap.Content("bonjour")}}}
 		}},
+		{"Name.map-repeated-tag", func(h string) interface{} {
+			return &ap.Object{ID: id, Type: ap.NoteType, Name: ap.NaturalLanguageValues{{Ref: "en", Value: ap.Content(h)}, {Ref: "en", Value: ap.Content("second")}, {Ref: "fr", Value: ap.Content("bonjour")}}}
+		}},
 		{"PreferredUsername.text", func(h string) interface{} {
 			return &ap.Actor{ID: id, Type: ap.PersonType, PreferredUsername: ap.DefaultNaturalLanguageValue(h)}
 		}},
@@ -686,6 +697,127 @@ func TestC02(t *testing.T) {
 		}
 		r.Cells(total, done)
 		r.Exhaustive("hostile", !r.Replaying())
+	}
+
+	// ---- members that have nothing to say: lists mixing real members with empty objects, empty links, empty IRIs and nil pointers
+	if r.WantLayer("empties", true) {
+		type member struct {
+			name string
+			mk   func() ap.Item
+			id   string // "" = writes nothing
+		}
+		alphabet := []member{
+			{"iri", func() ap.Item { return ap.IRI("https://example.com/a") }, "https://example.com/a"},
+			{"obj", func() ap.Item { return &ap.Object{ID: "https://example.com/o", Type: ap.NoteType} }, "https://example.com/o"},
+			{"empty-object", func() ap.Item { return &ap.Object{} }, ""},
+			{"empty-link", func() ap.Item { return &ap.Link{} }, ""},
+			{"empty-iri", func() ap.Item { return ap.IRI("") }, ""},
+			{"nil", func() ap.Item { return nil }, ""},
+			{"nil-pointer", func() ap.Item { return (*ap.Object)(nil) }, ""},
+			{"empty-list", func() ap.Item { return ap.ItemCollection{} }, ""},
+		}
+		var combos [][]int
+		var build func(cur []int)
+		build = func(cur []int) {
+			if len(cur) > 0 {
+				combos = append(combos, append([]int{}, cur...))
+			}
+			if len(cur) == 3 {
+				return
+			}
+			for k := range alphabet {
+				build(append(cur, k))
+			}
+		}
+		build(nil)
+		holders := []struct {
+			name string
+			mk   func(l ap.ItemCollection) interface{}
+			term string
+		}{
+			{"Object.Tag", func(l ap.ItemCollection) interface{} { return &ap.Object{ID: id, Type: ap.NoteType, Tag: l} }, "tag"},
+			{"Object.To", func(l ap.ItemCollection) interface{} { return &ap.Object{ID: id, Type: ap.NoteType, To: l} }, "to"},
+			{"Object.Audience", func(l ap.ItemCollection) interface{} { return &ap.Object{ID: id, Type: ap.NoteType, Audience: l} }, "audience"},
+			{"Object.Attachment", func(l ap.ItemCollection) interface{} { return &ap.Object{ID: id, Type: ap.NoteType, Attachment: l} }, "attachment"},
+			{"OrderedCollection.OrderedItems", func(l ap.ItemCollection) interface{} { return &ap.OrderedCollection{ID: id, Type: ap.OrderedCollectionType, OrderedItems: l} }, "orderedItems"},
+			{"ItemCollection", func(l ap.ItemCollection) interface{} { return l }, ""},
+		}
+		total, done := 0, 0
+		for _, h := range holders {
+			for _, cb := range combos {
+				total++
+				var names, wantIDs []string
+				l := ap.ItemCollection{}
+				for _, k := range cb {
+					l = append(l, alphabet[k].mk())
+					names = append(names, alphabet[k].name)
+					if alphabet[k].id != "" {
+						wantIDs = append(wantIDs, alphabet[k].id)
+					}
+				}
+				cell := h.name + " [" + strings.Join(names, ",") + "]"
+				if !r.WantCell(cell) {
+					continue
+				}
+				done++
+				x := h.mk(l)
+				var b []byte
+				var err error
+				pi := evSafe(func() { b, err = x.(json.Marshaler).MarshalJSON() })
+				r.Case(cell, len(wantIDs) < len(cb), "empties holder="+h.name)
+				if done%499 == 0 {
+					r.Sample(cell, map[string]interface{}{"layer": "empties", "holder": h.name, "members": names, "output": string(b)})
+				}
+				key := "json-out empties " + h.name + " "
+				switch {
+				case pi != nil:
+					r.Report("empties", cell, key+"panic@"+pi.Frame, pi.Value, cell)
+					continue
+				case err != nil || len(b) == 0:
+					continue
+				}
+				root, dups, _, perr := oracle.ParseJSON(b)
+				if perr != nil {
+					r.Report("empties", cell, key+"invalid-json", fmt.Sprintf("%v: %s", perr, b), cell)
+					continue
+				}
+				if len(dups) > 0 {
+					r.Report("empties", cell, key+"dup-member", string(b), cell)
+				}
+				node := root
+				if h.term != "" {
+					node = root.Get(h.term)
+				}
+				var gotIDs []string
+				collect := func(n *oracle.Node) {
+					switch {
+					case n == nil:
+					case n.Kind == "string":
+						gotIDs = append(gotIDs, n.Str)
+					case n.Kind == "object":
+						if idn := n.Get("id"); idn != nil {
+							gotIDs = append(gotIDs, idn.Str)
+						} else {
+							gotIDs = append(gotIDs, "<object without id>")
+						}
+					default:
+						gotIDs = append(gotIDs, "<"+n.Kind+">")
+					}
+				}
+				if node != nil && node.Kind == "array" {
+					for _, e := range node.Elems {
+						collect(e)
+					}
+				} else {
+					collect(node)
+				}
+				if strings.Join(gotIDs, " ") != strings.Join(wantIDs, " ") {
+					r.Report("empties", cell, key+"members", fmt.Sprintf("written members %v, the list's members that have something to say are %v: %s", gotIDs, wantIDs, b), cell)
+				}
+			}
+		}
+		r.Cells(total, done)
+		r.Exhaustive("empties", !r.Replaying())
 	}
 
 	hostileG := rapid.OneOf(rapid.SampledFrom(c02Hostile), rapid.StringOfN(rapid.RuneFrom([]rune("\"\\/bfnrtu0123456789{}[]:, \x00\x01\x1f\x7f\u2028\u2029😀aé")), 1, 20, -1), rapid.String(),
